@@ -368,6 +368,8 @@ GMPY = GmpyStub()
 def sym_int(x=0, base=None):
   """Replacement for the builtin int() inside analysed modules."""
   if base is not None:
+    if hasattr(x, 'sym_int_value'):
+      return x.sym_int_value(base)
     return int(x, base)
   if isinstance(x, (SInt, SBits)):
     return x
